@@ -39,6 +39,9 @@ EvVerdict(cfg, s, e, k) ==
      ELSE IF e.res # "ok" THEN Fail("pull-raised", k)
      ELSE IF <<e.num, e.den>> # Def(cfg, s.full, s.prev, e.t) THEN Fail("value", k)
      ELSE IF e.units # UnitsOf(cfg) THEN Fail("units", k)
+     \* a cell with missing values in SOME publications: where no contributing publication misses it, it carries
+     \* the same exact value as its always-present neighbour
+     ELSE IF cfg.pay = "hole" /\ NoHole(s.full, IF IsInteg(cfg) THEN s.prev ELSE e.t, e.t) /\ e.b # "same" THEN Fail("value-missing", k)
      ELSE SnapVerdict(r.st, e, k)
   ELSE
      IF e.res # "ok" THEN Fail("finalize-raised", k)
